@@ -308,7 +308,7 @@ class Gen:
             return [A("not"), self.any(d - 1)]
         if k < 0.9:
             t = self.pick(["defined", "undefined", "none", "odd", "even", "string", "number", "integer", "boolean", "true", "false",
-                           "mapping", "sequence", "iterable", "callable", "escaped"])
+                           "mapping", "sequence", "iterable", "callable", "escaped", "upper", "lower", "string"])
             arg = self.int(d - 1) if t in ("odd", "even") else self.any(d - 1)
             return [A("test"), arg, t]
         t = self.pick(["divisibleby", "eq", "ne", "lt", "le", "gt", "ge", "in", "equalto", "greaterthan", "lessthan"])
@@ -319,6 +319,11 @@ class Gen:
     def misc(self, d):
         r = self.rng
         k = r.random()
+        if k < 0.05:
+            # a filter and the test of the same name side by side (they are different functions)
+            nm = self.pick(["upper", "lower", "string"])
+            v = self.pick([n("s"), n("u"), cs("Ab"), n("i")])
+            return [A("tuple"), [A("filter"), v, nm], [A("test"), self.pick([n("s"), cs("AB"), cs("ab"), n("u")]), nm]]
         if k < 0.2:
             return self.lookup(d)
         if k < 0.35:
